@@ -10,6 +10,7 @@
    `within t dlo`: t is not after the deadline. *)
 From TX Require Import Model.Lockout Proofs.Lockout Proofs.LockoutBudget Proofs.SideC18 Gen.C18.
 From TX Require Model.BucketMap Proofs.BucketMap.
+From TX Require Import Proofs.RegRate.
 Open Scope Z_scope.
 
 (* (1) locked out: once a ban record for ip is in place — temporary until dl, or permanent (dlo = None) —
@@ -213,6 +214,57 @@ Theorem C18_no_recheck_refuted :
     Model.BucketMap.adm s 7%N = 2 /\ burst = 1.
 Proof. exact BucketMap.no_recheck_refuted. Qed.
 Print Assumptions C18_no_recheck_refuted.
+
+(* (4c) registrations are charged per REGISTRATION, whatever the token: over ANY timed history of ClientID = 0
+   handshakes of one address with ANY mix of token forms (monotone clock, any well-formed bucket state), the
+   registrations granted are at most (current level) + rate * elapsed <= burst + rate * elapsed - provided every
+   token form that registers is charged by gate 3 (the side condition re-proved below for the probed table) *)
+Theorem C18_registration_rate_bound :
+  forall C (registers charged : nat -> bool),
+  bucket_cfg_ok C -> (forall f, registers f = true -> charged f = true) ->
+  forall h b t0, wf_bucket C b t0 -> rmono t0 h ->
+  snd (reg_run C registers charged b h) * tps C <= level C b t0 + rate C * (rlast t0 h - t0)
+  /\ level C b t0 <= burst C * tps C.
+Proof. exact registration_bound. Qed.
+Print Assumptions C18_registration_rate_bound.
+
+(* ... instantiated at the token forms PROBED on the real HandleHandshake on every run (Gen token_table: for each
+   candidate token string, does a ClientID = 0 handshake register, and is the bucket charged) and the shipped limits *)
+Theorem C18_registration_rate_bound_probed_forms :
+  forall h b t0, wf_bucket default_cfg b t0 -> rmono t0 h ->
+  snd (reg_run default_cfg tok_registers tok_charged b h) * 1000 <= level default_cfg b t0 + IPRate * (rlast t0 h - t0)
+  /\ level default_cfg b t0 <= IPBurst * 1000.
+Proof. exact (registration_bound default_cfg tok_registers tok_charged default_ip_bucket_ok registering_forms_charged). Qed.
+Print Assumptions C18_registration_rate_bound_probed_forms.
+
+Theorem C18_registering_forms_charged :
+  forallb (fun rc => implb (fst rc) (snd rc)) token_table = true /\ (2 <= length (filter fst token_table))%nat.
+Proof. exact registering_forms_charged_table. Qed.
+Print Assumptions C18_registering_forms_charged.
+
+(* in the thread model every ClientID = 0 handshake (hk_anon: registering token or not) goes through gate 3, which
+   charges the bucket of the address and lets it on only if a token was there *)
+Theorem C18_zero_id_passes_gate3 :
+  forall V C ip k s p' s' r,
+  hk_anon k = true -> continue V C (PHs2 ip k) s = (p', s', r) -> p' = PHs3 ip k \/ p' = PIdle.
+Proof. exact zero_id_passes_gate3. Qed.
+Print Assumptions C18_zero_id_passes_gate3.
+
+Theorem C18_gate3_charges :
+  forall V C ip k s p' s' r,
+  continue V C (PHs3 ip k) s = (p', s', r) ->
+  bk s' ip = Some (fst (take C (now s) 1 (bk s ip))) /\
+  (p' = PHsAuth ip k <-> snd (take C (now s) 1 (bk s ip)) = true).
+Proof. exact gate3_charges. Qed.
+Print Assumptions C18_gate3_charges.
+
+(* a token form that registers without being charged: 12 registrations at one instant against burst 3 *)
+Theorem C18_uncharged_form_refuted :
+  exists registers charged h,
+    bucket_cfg_ok reg_cfg /\ rmono 0 h /\ rlast 0 h = 0 /\
+    snd (reg_run reg_cfg registers charged None h) = 12 /\ burst reg_cfg = 3.
+Proof. exact uncharged_form_refuted. Qed.
+Print Assumptions C18_uncharged_form_refuted.
 
 (* (5) gate order of HandleHandshake: a handshake that finds the address blacklisted (gate 1) or banned
    (gate 2) ends there with that refusal: no failure recorded, no ban, no token taken, lists unchanged, the
